@@ -1,10 +1,335 @@
 package main
 
+// C29: random single-client command sequences against the real gateway
+// (embedded backend) over TCP; raw reply bytes of every command are recorded.
+// Every case uses its own key prefix on a shared gateway process, and no
+// reply depends on the wall clock: EXAT/PXAT lie in the far past or far
+// future, EX/PX are either huge or invalid.
+
 import (
+	"encoding/hex"
+	"encoding/json"
 	"fmt"
+	"math/rand"
+	"strings"
+	"time"
 
 	"verifharness/internal/corr"
 )
 
-func runRedis(c *corr.Ctx) error     { return fmt.Errorf("family redis: not built yet") }
+type redisCmd struct {
+	Now  int64    `json:"now"`
+	Args []string `json:"args"` // hex
+}
+
+type redisDesc struct {
+	Cmds    []redisCmd `json:"cmds"`
+	Replies []string   `json:"replies"` // hex, as observed
+	Text    []string   `json:"text"`    // human-readable: command -> reply
+}
+
+var redisValues = []string{"", "0", "-1", "1", "9223372036854775807", "-9223372036854775808", "9223372036854775806",
+	" 12", "12 ", "abc", "  ", "\t", "+5", "007", "-0", "10", "9223372036854775808", "3.0", "x\r\ny", "\xc2\xa0"}
+
+var redisDeltas = []string{"1", "-1", "0", "5", "-5", "9223372036854775807", "-9223372036854775808", "-9223372036854775807",
+	"9223372036854775808", "abc", "", " 1", "+2", "1.5", "007"}
+
+var redisExpireArgs = map[string][]string{
+	"EX":   {"1000000", "9223372036", "9223372037", "9223372036854775807", "0", "-1", "abc", "", "4000000000"},
+	"PX":   {"1000000000000", "9223372036854", "9223372036855", "9223372036854775807", "0", "-5", "x", "5000000000"},
+	"EXAT": {"1", "1000000000", "4000000000", "9223372036854775807", "0", "-1", "q"},
+	"PXAT": {"1", "999", "1000", "1000000000000", "4000000000000", "9223372036854775807", "0", "-1", "zz"},
+}
+
+func mixCase(r *rand.Rand, s string) string {
+	switch r.Intn(4) {
+	case 0:
+		return strings.ToLower(s)
+	case 1:
+		b := []byte(strings.ToLower(s))
+		for i := range b {
+			if r.Intn(2) == 0 {
+				b[i] = strings.ToUpper(string(b[i]))[0]
+			}
+		}
+		return string(b)
+	}
+	return s
+}
+
+func genRedisSeq(r *rand.Rand, prefix string, n int, emptyKeys bool) [][]string {
+	keys := []string{prefix + "a", prefix + "b", prefix + "c", prefix + "d"}
+	key := func() string {
+		if emptyKeys && r.Intn(12) == 0 {
+			return ""
+		}
+		return keys[r.Intn(len(keys))]
+	}
+	val := func() string { return redisValues[r.Intn(len(redisValues))] }
+	someKeys := func() []string {
+		m := 1 + r.Intn(3)
+		out := make([]string, m)
+		for i := range out {
+			out[i] = key()
+		}
+		return out
+	}
+	var seq [][]string
+	for i := 0; i < n; i++ {
+		var c []string
+		switch x := r.Intn(100); {
+		case x < 22: // SET with options
+			c = []string{"SET", key(), val()}
+			for j, m := 0, r.Intn(4); j < m; j++ {
+				switch r.Intn(7) {
+				case 0:
+					c = append(c, mixCase(r, "NX"))
+				case 1:
+					c = append(c, mixCase(r, "XX"))
+				case 2:
+					c = append(c, "KEEPTTL")
+				case 3:
+					c = append(c, "bogus")
+				default:
+					opt := []string{"EX", "PX", "EXAT", "PXAT"}[r.Intn(4)]
+					c = append(c, mixCase(r, opt))
+					if r.Intn(12) != 0 {
+						as := redisExpireArgs[opt]
+						c = append(c, as[r.Intn(len(as))])
+					}
+				}
+			}
+		case x < 34:
+			c = []string{"GET", key()}
+		case x < 42:
+			c = append([]string{"DEL"}, someKeys()...)
+		case x < 48:
+			c = append([]string{"EXISTS"}, someKeys()...)
+		case x < 54:
+			c = append([]string{"MGET"}, someKeys()...)
+		case x < 60:
+			c = []string{"MSET"}
+			for j, m := 0, 1+r.Intn(3); j < m; j++ {
+				c = append(c, key(), val())
+			}
+			if r.Intn(8) == 0 {
+				c = append(c, key())
+			}
+		case x < 70:
+			c = []string{"INCR", key()}
+		case x < 76:
+			c = []string{"DECR", key()}
+		case x < 84:
+			c = []string{"INCRBY", key(), redisDeltas[r.Intn(len(redisDeltas))]}
+		case x < 92:
+			c = []string{"DECRBY", key(), redisDeltas[r.Intn(len(redisDeltas))]}
+		case x < 94:
+			c = []string{"PING"}
+			for j, m := 0, r.Intn(3); j < m; j++ {
+				c = append(c, val())
+			}
+		case x < 96:
+			c = []string{"ECHO"}
+			for j, m := 0, r.Intn(3); j < m; j++ {
+				c = append(c, val())
+			}
+		case x < 98: // arity / unknown
+			names := []string{"GET", "SET", "DEL", "MGET", "MSET", "INCR", "DECR", "INCRBY", "DECRBY", "EXISTS", "ECHO", "FOO", "get2", "Hello"}
+			c = []string{names[r.Intn(len(names))]}
+			for j, m := 0, r.Intn(5); j < m; j++ {
+				c = append(c, key())
+			}
+		default:
+			if r.Intn(4) == 0 {
+				c = []string{"QUIT"}
+			} else {
+				c = []string{"GET", key()}
+			}
+		}
+		c[0] = mixCase(r, c[0])
+		seq = append(seq, c)
+	}
+	// final observation of every key
+	seq = append(seq, append([]string{"MGET"}, keys...), append([]string{"EXISTS"}, keys...))
+	for _, k := range keys {
+		seq = append(seq, []string{"GET", k})
+	}
+	return seq
+}
+
+func runRedisSeq(g *gateway, seq [][]string) (redisDesc, error) {
+	var d redisDesc
+	cn, err := g.dial()
+	if err != nil {
+		return d, err
+	}
+	defer cn.close()
+	for _, c := range seq {
+		args := make([][]byte, len(c))
+		hx := make([]string, len(c))
+		for i, a := range c {
+			args[i] = []byte(a)
+			hx[i] = hex.EncodeToString(args[i])
+		}
+		now := time.Now().Unix()
+		rep, err := cn.do(args...)
+		if err != nil {
+			return d, fmt.Errorf("command %q: %v (partial reply %q)", c, err, rep)
+		}
+		d.Cmds = append(d.Cmds, redisCmd{Now: now, Args: hx})
+		d.Replies = append(d.Replies, hex.EncodeToString(rep))
+		d.Text = append(d.Text, fmt.Sprintf("%q -> %q", c, rep))
+		if strings.EqualFold(c[0], "QUIT") {
+			break
+		}
+	}
+	return d, nil
+}
+
+func printable(b []byte) bool {
+	for _, x := range b {
+		if x < 0x20 || x > 0x7e || x == '"' {
+			return false
+		}
+	}
+	return true
+}
+
+// coqSeg prints one byte string as A "text" or X "hex".
+func coqSeg(b []byte, line bool) string {
+	tag, htag := "A", "X"
+	if line {
+		tag, htag = "L", "XL"
+	}
+	if printable(b) {
+		return fmt.Sprintf("%s \"%s\"", tag, b)
+	}
+	return fmt.Sprintf("%s \"%s\"", htag, hex.EncodeToString(b))
+}
+
+// coqReply prints raw reply bytes as a list of CRLF-terminated lines.
+func coqReply(rep []byte) string {
+	var segs []string
+	for len(rep) > 0 {
+		i := strings.Index(string(rep), "\r\n")
+		if i < 0 {
+			segs = append(segs, coqSeg(rep, false))
+			break
+		}
+		segs = append(segs, coqSeg(rep[:i], true))
+		rep = rep[i+2:]
+	}
+	return corr.List(segs)
+}
+
+func redisCaseTerm(d redisDesc) string {
+	cmds := make([]string, len(d.Cmds))
+	for i, c := range d.Cmds {
+		as := make([]string, len(c.Args))
+		for j, a := range c.Args {
+			b, _ := hex.DecodeString(a)
+			as[j] = coqSeg(b, false)
+		}
+		cmds[i] = fmt.Sprintf("C %d %s", c.Now, corr.List(as))
+	}
+	reps := make([]string, len(d.Replies))
+	for i, r := range d.Replies {
+		b, _ := hex.DecodeString(r)
+		reps[i] = coqReply(b)
+	}
+	return fmt.Sprintf("Cs %s %s", corr.List(cmds), corr.List(reps))
+}
+
+func runRedis(c *corr.Ctx) error {
+	c.Meta("run_module", "RunRedis")
+	c.Meta("rule", "random single-connection command sequences (5-40 commands + final MGET/EXISTS/GET of every key) over 4 keys with a per-case prefix; 20 values (empty, white space, int64 limits, non-integers, +5, 007, CRLF); SET with NX/XX/EX/PX/EXAT/PXAT/KEEPTTL/bogus options in random order and case, expiry arguments in the far past/future, zero, negative, non-integer, overflowing; DEL/EXISTS/MGET/MSET with repeated keys and odd arity; INCR/DECR/INCRBY/DECRBY with 15 deltas incl. -2^63; PING/ECHO with 0-2 arguments; unknown commands; QUIT. Raw reply bytes of every command compared. non-trivial = at least one write command succeeded; distinct by Gallina term")
+	bin, err := buildGateway(c.Out)
+	if err != nil {
+		return err
+	}
+	g, err := startGateway(bin, c.Out)
+	if err != nil {
+		return err
+	}
+	defer g.stop()
+
+	emit := func(d redisDesc) {
+		nontrivial := false
+		for i, cm := range d.Cmds {
+			a0, _ := hex.DecodeString(cm.Args[0])
+			name := strings.ToUpper(string(a0))
+			c.Count("cmd_" + name)
+			rep, _ := hex.DecodeString(d.Replies[i])
+			switch {
+			case len(rep) > 0 && rep[0] == '-':
+				c.Count("reply_error")
+				c.Count("err_" + strings.TrimSpace(string(rep[1:min(len(rep), 30)])))
+			case name == "SET" || name == "MSET" || name == "INCR" || name == "DECR" || name == "INCRBY" || name == "DECRBY" || name == "DEL":
+				if string(rep) != "$-1\r\n" {
+					nontrivial = true
+				}
+			}
+		}
+		c.Emit(corr.Case{Coq: redisCaseTerm(d), Nontrivial: nontrivial, Desc: d})
+	}
+
+	if c.Replay != "" {
+		cases, err := c.ReplayCases()
+		if err != nil {
+			return err
+		}
+		for i, cs := range cases {
+			b, _ := json.Marshal(cs.Desc)
+			var d redisDesc
+			if err := json.Unmarshal(b, &d); err != nil {
+				return err
+			}
+			// re-run the same commands under a fresh key prefix
+			var seq [][]string
+			for _, cm := range d.Cmds {
+				var as []string
+				for _, a := range cm.Args {
+					x, _ := hex.DecodeString(a)
+					as = append(as, string(x))
+				}
+				seq = append(seq, as)
+			}
+			seq = rePrefix(seq, fmt.Sprintf("r%d.%d:", time.Now().UnixNano()%1000000, i))
+			nd, err := runRedisSeq(g, seq)
+			if err != nil {
+				return err
+			}
+			emit(nd)
+		}
+		return nil
+	}
+
+	n := c.Scale(400, 12000)
+	for i := 0; i < n; i++ {
+		prefix := fmt.Sprintf("s%d.%d:", c.Seed, i)
+		seq := genRedisSeq(c.Rng, prefix, 5+c.Rng.Intn(36), false)
+		d, err := runRedisSeq(g, seq)
+		if err != nil {
+			return err
+		}
+		emit(d)
+	}
+	return nil
+}
+
+// rePrefix replaces the "<prefix>:" part of every key-looking argument.
+func rePrefix(seq [][]string, prefix string) [][]string {
+	out := make([][]string, len(seq))
+	for i, c := range seq {
+		out[i] = make([]string, len(c))
+		for j, a := range c {
+			if k := strings.Index(a, ":"); j > 0 && k > 0 && k < 24 && (a[0] == 's' || a[0] == 'r') && len(a) == k+2 {
+				a = prefix + a[k+1:]
+			}
+			out[i][j] = a
+		}
+	}
+	return out
+}
+
 func runRedisConc(c *corr.Ctx) error { return fmt.Errorf("family redisconc: not built yet") }
